@@ -440,9 +440,20 @@ def opCrop (j : Json) : Json :=
   let P := permsOf j
   let kind := valOfJson (getObj j "kind")
   let k := getNat j "outputs"
-  let (_, obs) := (getArr j "ops").foldl (fun (acc : Crop.St (List Sym) × Array Json) op =>
-    let (s', o) := cropOp P kind k acc.1 op
-    (s', acc.2.push (Json.mkObj [("o", o), ("ls", lsJson s')]))) (({} : Crop.St (List Sym)), #[])
+  -- `switch`: two live Crop objects on the one directory take turns — the current object is parked and the parked one
+  -- (or, the first time, a fresh `Crop(name=…, parent_dir=…)`) is taken up again AS IT WAS LEFT; only the directory is shared
+  let (_, obs) := (getArr j "ops").foldl (fun (acc : (Crop.St (List Sym) × Option Crop.Obj) × Array Json) op =>
+    let (s, parked) := acc.1
+    if getStr op "op" == "switch" then
+      let other : Crop.Obj := match parked with
+        | some o => o
+        | none => (Crop.opNew s none none 0).obj
+      let s' : Crop.St (List Sym) := { s with obj := other }
+      ((s', some s.obj), acc.2.push (Json.mkObj [("o", Json.null), ("ls", lsJson s')]))
+    else
+      let (s', o) := cropOp P kind k s op
+      ((s', parked), acc.2.push (Json.mkObj [("o", o), ("ls", lsJson s')])))
+    ((({} : Crop.St (List Sym)), none), #[])
   Json.mkObj [("obs", Json.arr obs)]
 
 
